@@ -98,6 +98,14 @@ def _replay_gap(rows):
                 ncalls += 2
                 if gu != expu or gs != len(expu):
                     bad.append({"kind": "get_uncovered", "cone": cone, "V": V, "eps": eps, "expected": expu, "got": gu, "got_size": gs})
+                # the same CONE given by rows that are not unit vectors (integer rows, and rows scaled by different positive factors):
+                # eps-coverage is a statement about the cone, not about the matrix that describes it
+                Wr = np.array(CONES[cone], dtype=float) * np.array([[3.0], [0.5], [2.0], [1.0]])[:len(Wu)]
+                gu2 = list(get_uncovered_set(list(range(n)), [j], Va, eps, Wr))
+                gs2 = int(get_uncovered_size(Va, Va[[j]], eps, Wr))
+                ncalls += 2
+                if gu2 != expu or gs2 != len(expu):
+                    bad.append({"kind": "get_uncovered-rowscaled", "cone": cone, "V": V, "eps": eps, "W": Wr.tolist(), "expected": expu, "got": gu2, "got_size": gs2})
     return ncalls, bad
 
 
@@ -112,6 +120,7 @@ def _replay_f1(rows):
     bad = []
     ncalls = 0
     orders = {}
+    raw_orders = {}
     for cone, V, true, pred, f1, bd in rows:
         if cone not in orders:
             orders[cone] = PolyhedralConeOrder(OrderingCone(_unit(CONES[cone])))
@@ -128,6 +137,13 @@ def _replay_f1(rows):
                 ncalls += 1
                 if not (abs(got - num / den) < 1e-9):
                     bad.append({"kind": "epsF1" + ("" if dt is float else "-int-dtype"), "cone": cone, "V": V, "true": sorted(true), "pred": list(pred), "eps": eps, "expected": [num, den], "got": got})
+                if dt is float:
+                    if cone not in raw_orders:
+                        raw_orders[cone] = PolyhedralConeOrder(OrderingCone(np.array(CONES[cone], dtype=float) * np.array([[3.0], [0.5], [2.0], [1.0]])[:len(CONES[cone])]))
+                    got2 = float(calculate_epsilonF1_score(ds, raw_orders[cone], np.array(sorted(i - 1 for i in true)), [i - 1 for i in pred], eps))
+                    ncalls += 1
+                    if not (abs(got2 - num / den) < 1e-9):
+                        bad.append({"kind": "epsF1-rowscaled", "cone": cone, "V": V, "true": sorted(true), "pred": list(pred), "eps": eps, "expected": [num, den], "got": got2})
     return ncalls, bad
 
 
